@@ -114,12 +114,24 @@ Definition extract_cd_target (t : tree) : option str :=
   | _ => None
   end.
 
+(* `command` / `builtin` prefixes, each with its options (words starting with "-"), are looked through *)
+Fixpoint skip_dashes (ws : list str) : list str :=
+  match ws with w :: r => if prefixb [45] w then skip_dashes r else ws | [] => [] end.
+Fixpoint skip_chdir_wrappers (fuel : nat) (ws : list str) : list str :=
+  match fuel with
+  | O => ws
+  | S f => match ws with
+           | w :: r => if mem_str w CHDIR_WRAPPERS then skip_chdir_wrappers f (skip_dashes r) else ws
+           | [] => []
+           end
+  end.
+
 (* _changes_directory(node): a cd/pushd/popd that runs in the current shell, anywhere inside *)
 Fixpoint changes_directory (t : tree) : bool :=
   match t with
   | T k _ _ ks =>
       if str_eqb k $"command" then
-        match skip_assignments (map word_value (map snd (filter (fun p => str_eqb (fst p) $"words") ks))) with
+        match skip_chdir_wrappers (length ks) (skip_assignments (map word_value (map snd (filter (fun p => str_eqb (fst p) $"words") ks)))) with
         | b :: _ => mem_str b CHDIR_COMMANDS
         | [] => false
         end
@@ -211,26 +223,64 @@ Section Walker.
 
   Definition unknown_ctx (c : ctx) : ctx := (UNKNOWN_CWD, snd c).
 
-  (* the directory the next element of a sequence is analysed in *)
-  Definition next_ctx (c : ctx) (t : tree) : ctx :=
-    if snd c then c else
+  (* _analyze_sequence: the state carried from one element to the next is the directory and whether that
+     directory rests on the assumption that an earlier `cd` succeeded.  [op] is the list operator written
+     after the element (";" for a newline or the end).  A `cd <literal>` is followed only through "&&"; an
+     element followed by "&" runs in a subshell and moves nothing; leaving an "&&" chain that started with
+     a followed cd makes the directory unknown (the cd may have failed). *)
+  Definition seq_state := (ctx * (bool * str))%type.        (* directory, assumed, operator before this element *)
+  Definition op_and : str := [38; 38].
+  Definition op_or : str := [124; 124].
+  Definition op_bg : str := [38].
+  Definition op_semi : str := [59].
+  Definition init_state (c : ctx) : seq_state := (c, (false, op_semi)).
+  Definition st_assumed (st : seq_state) : bool := fst (snd st).
+  Definition st_prev (st : seq_state) : str := snd (snd st).
+
+  Definition next_state (st : seq_state) (t : tree) (op : str) : seq_state :=
+    let c := fst st in
+    if snd c then st else
+    (* what the move decides: directory and assumption *)
+    let moved : ctx * bool :=
+      if str_eqb op op_bg then (c, st_assumed st) else
       match extract_cd_target t with
-      | Some tgt => if nonempty tgt then (cdres (fst c) tgt, snd c)
-                    else if changes_directory t then unknown_ctx c else c
-      | None => if changes_directory t then unknown_ctx c else c
-      end.
+      | Some tgt =>
+          if nonempty tgt && str_eqb op op_and && negb (str_eqb (st_prev st) op_or) then ((cdres (fst c) tgt, snd c), true)
+          else if nonempty tgt || changes_directory t then (unknown_ctx c, st_assumed st) else (c, st_assumed st)
+      | None => if changes_directory t then (unknown_ctx c, st_assumed st) else (c, st_assumed st)
+      end in
+    (* leaving an "&&" chain that rests on a followed cd *)
+    if snd moved && negb (str_eqb op op_and) then (unknown_ctx (fst moved), (false, op)) else (fst moved, (snd moved, op)).
+
+  (* the context of the next element when the operator is ";" (top-level nodes on separate lines) *)
+  Definition next_ctx (c : ctx) (t : tree) : ctx := fst (next_state (init_state c) t op_semi).
 
   (* the directory a loop body / the branches of an if run in *)
   Definition body_ctx (c : ctx) (moves : bool) : ctx := if negb (snd c) && moves then unknown_ctx c else c.
 
-  (* _analyze_sequence over already evaluated nodes *)
-  Fixpoint sequence (c : ctx) (l : list (tree * res)) : list verdict :=
+  (* _analyze_sequence over already evaluated nodes, each with the operator after it *)
+  Fixpoint sequence (st : seq_state) (l : list (tree * res * str)) : list verdict :=
+    match l with
+    | [] => []
+    | (t, r, op) :: rest =>
+        r_node r (fst st) ::
+        sequence (next_state st t op) rest
+    end.
+
+  (* the parts of a list node paired with the operator written after each (operator kids carry attribute "op") *)
+  Fixpoint ops_after (l : list (tree * res)) (cur : str) : str :=      (* the last of the operators that follow *)
+    match l with
+    | (o, _) :: rest => if is_kind "operator" o then ops_after rest (attr_d "op" o) else cur
+    | [] => cur
+    end.
+  Fixpoint with_ops (l : list (tree * res)) : list (tree * res * str) :=
     match l with
     | [] => []
     | (t, r) :: rest =>
-        r_node r c ::
-        sequence (next_ctx c t) rest
+        if is_kind "operator" t then with_ops rest
+        else (t, r, ops_after rest op_semi) :: with_ops rest
     end.
+  Definition semis (l : list (tree * res)) : list (tree * res * str) := map (fun p => (fst p, snd p, op_semi)) l.
 
   Definition lbl (k : string) (kr : list (str * tree * res)) : list (tree * res) :=
     map (fun p => (snd (fst p), snd p)) (filter (fun p => str_eqb (fst (fst p)) (s2l k)) kr).
@@ -250,6 +300,21 @@ Section Walker.
     flat_map (fun p => r_redir (snd p) c) (lbl "redirects" kr).
   Definition wparts_of (k : string) (kr : list (str * tree * res)) (c : ctx) : list verdict :=
     flat_map (fun p => r_wp (snd p) false c) (lbl k kr).
+
+  (* case items run in order; after an item that falls through (terminator ";&" or ";;&") and whose body changes
+     directory, the later items are judged in the unknown directory *)
+  Definition item_moves (t : tree) : bool :=
+    match assoc_str $"terminator" (match t with T _ ss _ _ => ss end) with
+    | Some term => negb (str_eqb term $";;")
+    | None => false
+    end &&
+    match child "body" t with Some b => changes_directory b | None => false end.
+  Definition item_ctx (c : ctx) (t : tree) : ctx := if negb (snd c) && item_moves t then unknown_ctx c else c.
+  Fixpoint case_items (c : ctx) (l : list (tree * res)) : list verdict :=
+    match l with
+    | [] => []
+    | (t, r) :: rest => r_pat r c ++ case_items (item_ctx c t) rest
+    end.
 
   Definition known_kinds : list str :=
     [$"command"; $"pipeline"; $"list"; $"if"; $"while"; $"until"; $"for"; $"for-arith"; $"select";
@@ -326,7 +391,7 @@ Section Walker.
       if K "command" then command c
       else if K "pipeline" then combine (map (fun p => r_node (snd p) c) (lbl "commands" kr))
       else if K "list" then
-        combine (sequence c (filter (fun p => negb (is_kind "operator" (fst p))) (lbl "parts" kr)))
+        combine (sequence (init_state c) (with_ops (lbl "parts" kr)))
       else if K "if" then
         let cb := body_ctx c (moves_of (one "condition" kr)) in
         combine (need_node (one "condition" kr) c :: need_node (one "then_body" kr) cb ::
@@ -340,7 +405,7 @@ Section Walker.
         combine (need_node (one "body" kr) (body_ctx c (moves_of (one "body" kr))) ::
                  rawscan c (sattr "init") ++ rawscan c (sattr "cond") ++ rawscan c (sattr "incr") ++ redirs kr c)
       else if K "case" then
-        combine (wparts_of "word" kr c ++ flat_map (fun p => r_pat (snd p) c) (lbl "patterns" kr) ++ redirs kr c)
+        combine (wparts_of "word" kr c ++ case_items c (lbl "patterns" kr) ++ redirs kr c)
       else if K "function" then need_node (one "body" kr) c
       else if K "subshell" || K "brace-group" then combine (need_node (one "body" kr) c :: redirs kr c)
       else if K "time" || K "negation" then need_node (one "pipeline" kr) c
@@ -368,6 +433,6 @@ Section Walker.
     match nodes with
     | None => Ask
     | Some [] => Ask
-    | Some ns => combine (sequence c (map (fun t => (t, ev t)) ns))
+    | Some ns => combine (sequence (init_state c) (semis (map (fun t => (t, ev t)) ns)))
     end.
 End Walker.
